@@ -531,3 +531,211 @@ fn run_sizes(c: &SizeCase, dir: &std::path::Path, o: &mut Outcome) -> Verdict {
     }
     Ok(())
 }
+
+/////////////////////////////////////////// boundary counts ////////////////////////////////////////
+
+/// Structural counts at which the encoding of a block changes width: the restart table of a block
+/// is a length-prefixed run of 4-byte offsets, so its varint length prefix grows from one to two
+/// bytes at 32 restarts and from two to three at 4096.  The same holds for the index block of a
+/// table, whose entries are the data blocks.  Each case sweeps the number of entries through a
+/// window around one of these counts, so that every restart count from R-1 to R+1 is built.
+#[derive(Clone, Copy, Debug, PartialEq, Eq, Serialize, Deserialize)]
+pub enum CountKind {
+    /// a stand-alone block with about R restarts
+    Block,
+    /// a table whose single data block has about R restarts
+    SstOneBlock,
+    /// a table of about R * pairs_ri one-entry data blocks: its index block has about R restarts
+    SstManyBlocks,
+}
+
+#[derive(Clone, Debug, Serialize, Deserialize)]
+pub struct CountCase {
+    pub kind: CountKind,
+    pub pairs_ri: u32,
+    /// 32 or 4096
+    pub threshold: u32,
+    /// versions per key (1 or 2)
+    pub versions: u8,
+    /// every `tomb_every`-th entry is a tombstone (0: none)
+    pub tomb_every: u8,
+    pub value_len: u8,
+}
+
+pub struct BoundaryCounts;
+
+fn count_entries(n: usize, c: &CountCase) -> Vec<Entry> {
+    let mut out = Vec::with_capacity(n);
+    let versions = c.versions.max(1) as usize;
+    let mut i = 0usize;
+    while out.len() < n {
+        let key = format!("c{:07}", i).into_bytes();
+        for v in 0..versions {
+            if out.len() == n {
+                break;
+            }
+            let ts = (versions - v) as u64 * 10;
+            let idx = out.len();
+            let value = if c.tomb_every > 0 && idx % c.tomb_every as usize == c.tomb_every as usize - 1 { None } else { Some(tables::value_n(idx as u32, c.value_len as usize)) };
+            out.push((key.clone(), ts, value));
+        }
+        i += 1;
+    }
+    out
+}
+
+fn restarts_of(bytes: &[u8]) -> u32 {
+    if bytes.len() < 4 {
+        return 0;
+    }
+    u32::from_le_bytes(bytes[bytes.len() - 4..].try_into().unwrap())
+}
+
+fn light_checks<C: sst::Cursor>(what: &str, n: usize, mk: &mut dyn FnMut() -> C, entries: &[Entry]) -> Verdict {
+    let sig = |s: &str| format!("count:{what}:{s}");
+    match walk_forward(&mut mk()) {
+        Ok(got) if got == entries => {}
+        Ok(got) => return err(sig("forward-walk"), format!("{n} entries: forward enumeration returned {} entries", got.len())),
+        Err(e) => return err(sig("forward-walk-error"), format!("{n} entries: {e}")),
+    }
+    match walk_backward(&mut mk()) {
+        Ok(got) if got == entries => {}
+        Ok(got) => return err(sig("backward-walk"), format!("{n} entries: backward enumeration returned {} entries", got.len())),
+        Err(e) => return err(sig("backward-walk-error"), format!("{n} entries: {e}")),
+    }
+    // around both ends and the middle, with direction reversals
+    let last = entries.last().unwrap().0.clone();
+    let mut past = last.clone();
+    past.push(0xff);
+    let mid = entries[entries.len() / 2].0.clone();
+    let prog = vec![
+        CursorOp::Seek(past.clone()),
+        CursorOp::Prev,
+        CursorOp::Prev,
+        CursorOp::Next,
+        CursorOp::Next,
+        CursorOp::Next,
+        CursorOp::SeekToLast,
+        CursorOp::Prev,
+        CursorOp::Next,
+        CursorOp::Next,
+        CursorOp::Seek(last),
+        CursorOp::Next,
+        CursorOp::Next,
+        CursorOp::Prev,
+        CursorOp::Seek(mid),
+        CursorOp::Prev,
+        CursorOp::Next,
+        CursorOp::SeekToFirst,
+        CursorOp::Next,
+        CursorOp::Prev,
+        CursorOp::Prev,
+        CursorOp::Next,
+    ];
+    tables::compare_program(&format!("count:{what}"), &mut mk(), &mut RefCursor::new(entries.to_vec()), &prog)
+}
+
+impl Property for BoundaryCounts {
+    type Case = CountCase;
+    fn name(&self) -> String {
+        "boundary-counts".into()
+    }
+    fn cases(&self, tier: Tier) -> u64 {
+        tier.pick(3, 40)
+    }
+    fn max_shrink_iters(&self) -> u32 {
+        12
+    }
+    fn strategy(&self, _: &Ctx) -> BoxedStrategy<CountCase> {
+        (
+            prop_oneof![3 => Just(CountKind::Block), 2 => Just(CountKind::SstOneBlock), 2 => Just(CountKind::SstManyBlocks)],
+            prop_oneof![4 => Just(1u32), 2 => Just(2u32), 1 => Just(3u32)],
+            prop_oneof![1 => Just(32u32), 3 => Just(4096u32)],
+            1u8..3,
+            prop_oneof![Just(0u8), Just(3u8), Just(7u8)],
+            prop_oneof![Just(0u8), Just(1u8), Just(5u8)],
+        )
+            .prop_map(|(kind, pairs_ri, threshold, versions, tomb_every, value_len)| CountCase { kind, pairs_ri, threshold, versions, tomb_every, value_len })
+            .boxed()
+    }
+    fn run(&self, ctx: &Ctx, c: &CountCase) -> Outcome {
+        let mut o = Outcome::pass();
+        o.label(format!("kind:{:?}", c.kind));
+        o.label(format!("threshold:{}", c.threshold));
+        let dir = ctx.fresh_dir("c10-counts");
+        let res = run_counts(c, &dir, &mut o);
+        let _ = std::fs::remove_dir_all(&dir);
+        if let Err((sig, msg)) = res {
+            o.fail(sig, msg);
+        }
+        o
+    }
+}
+
+fn run_counts(c: &CountCase, dir: &std::path::Path, o: &mut Outcome) -> Verdict {
+    let p = c.pairs_ri.max(1) as usize;
+    let r = c.threshold.max(2) as usize;
+    let lo = (p * (r - 1)).saturating_sub(1).max(1);
+    let hi = p * (r + 1) + 1;
+    let mut seen = std::collections::BTreeSet::new();
+    for n in lo..=hi {
+        let entries = count_entries(n, c);
+        match c.kind {
+            CountKind::Block => {
+                // the bytes interval is out of the way: only the pair count starts a restart
+                let blk = tables::build_block(&entries, u32::MAX, c.pairs_ri).map_err(|e| ("count:block:build-error".to_string(), format!("{n} entries: {e:?}")))?;
+                seen.insert(restarts_of(blk.as_bytes()));
+                light_checks("block", n, &mut || blk.cursor(), &entries)?;
+                for k in [&entries[0], &entries[n / 2], &entries[n - 1]] {
+                    let mut tomb = false;
+                    let v = blk.load(&k.0, u64::MAX, &mut tomb).map_err(|e| ("count:block:load-error".to_string(), format!("{n} entries: load({}) failed: {e:?}", gens::show(&k.0))))?;
+                    let (mv, mt) = model_load(&entries, &k.0, u64::MAX);
+                    if v != mv || tomb != mt {
+                        return err("count:block:load", format!("{n} entries: load({}) disagrees with the entries", gens::show(&k.0)));
+                    }
+                }
+            }
+            CountKind::SstOneBlock | CountKind::SstManyBlocks => {
+                let many = c.kind == CountKind::SstManyBlocks;
+                let opts = BuildOpts { bytes_ri: u32::MAX, pairs_ri: c.pairs_ri, block_size: if many { 1 } else { u32::MAX } };
+                let path = dir.join(format!("{n}.sst"));
+                let table = tables::build_sst(&path, &entries, &opts).map_err(|e| ("count:sst:build-error".to_string(), format!("{n} entries: {e:?}")))?;
+                let what = if many { "sst-many-blocks" } else { "sst-one-block" };
+                light_checks(what, n, &mut || table.cursor(), &entries)?;
+                let md = table.metadata().map_err(|e| (format!("count:{what}:metadata-error"), format!("{n} entries: metadata() failed: {e:?}")))?;
+                if md.first_key != entries[0].0 || md.last_key != entries[n - 1].0 {
+                    return err(format!("count:{what}:metadata"), format!("{n} entries: metadata first/last key differ from the entries"));
+                }
+                for k in [&entries[0], &entries[n / 3], &entries[n / 2], &entries[n - 1]] {
+                    let mut tomb = false;
+                    let v = table.load(&k.0, u64::MAX, &mut tomb).map_err(|e| (format!("count:{what}:load-error"), format!("{n} entries: load({}) failed: {e:?}", gens::show(&k.0))))?;
+                    let (mv, mt) = model_load(&entries, &k.0, u64::MAX);
+                    if v != mv || tomb != mt {
+                        return err(format!("count:{what}:load"), format!("{n} entries: load({}) disagrees with the entries", gens::show(&k.0)));
+                    }
+                }
+                // a fresh handle on the file sees the same
+                drop(table);
+                let again = sst::Sst::<sst::file_manager::FileHandle>::new(sst::SstOptions::default(), &path).map_err(|e| (format!("count:{what}:reopen-error"), format!("{n} entries: {e:?}")))?;
+                match walk_forward(&mut again.cursor()) {
+                    Ok(got) if got == entries => {}
+                    Ok(got) => return err(format!("count:{what}:reopen-forward-walk"), format!("{n} entries: a fresh handle enumerates {} entries", got.len())),
+                    Err(e) => return err(format!("count:{what}:reopen-forward-walk-error"), format!("{n} entries: {e}")),
+                }
+                let _ = std::fs::remove_file(&path);
+            }
+        }
+    }
+    if c.kind == CountKind::Block {
+        let r32 = c.threshold;
+        if seen.contains(&r32) && seen.contains(&(r32 - 1)) && seen.contains(&(r32 + 1)) {
+            o.label("restart-count-swept-through-threshold");
+            o.nontrivial = true;
+        } else {
+            o.label(format!("restart-counts-seen:{:?}..{:?}", seen.iter().next(), seen.iter().last()));
+        }
+    } else {
+        o.nontrivial = true;
+    }
+    Ok(())
+}
